@@ -163,7 +163,7 @@ class Origins:
             if "promoted" in op:
                 return {("promoted", op["promoted"])}
             if "fn" in op:
-                return {("fnitem", op["fn"])}
+                return {("fnitem", op["fn"], tuple(op.get("fn_args") or ()))}
             if "int" in op:
                 return {("const", op["int"])}
             return {("const", op["val"])}
